@@ -553,7 +553,14 @@ func (e *Exec) strConst(st *State, s string) string {
 	return id
 }
 
-func (e *Exec) slen() string { return e.fun("s_len", []string{SInt}, SBV(64)) }
+func (e *Exec) slen() string {
+	if _, ok := e.funs["s_len"]; !ok {
+		e.fun("s_len", []string{SInt}, SBV(64))
+		// a string's length is non-negative (and below 2^40, like every length)
+		e.addAxiom("(forall ((s Int)) (! (and (bvsge (s_len s) (_ bv0 64)) (bvslt (s_len s) (_ bv1099511627776 64))) :pattern ((s_len s))))")
+	}
+	return "s_len"
+}
 func (e *Exec) sat() string  { return e.fun("s_at", []string{SInt, SBV(64)}, SBV(8)) }
 func (e *Exec) ssub() string { return e.fun("s_sub", []string{SInt, SBV(64), SBV(64)}, SInt) }
 
